@@ -21,8 +21,8 @@ CFG = dict(
     assumptions=['structural theorems assume of the six hash functions only their output length (hashes_ok); '
                  'C16_twelve_sets_* derives it from the digest lengths of SHA-256/SHA-512/SHAKE256/HMAC',
                  'the FIPS 205 equalities assume fips_wf of the parameter record (proved for the twelve sets) and that the family over address records agrees pointwise with a family over 32-byte ADRS strings (hashes_agree; proved for hash.go\'s three instantiations against FIPS 205 section 11 from the SHA-256 / SHA-512 digest lengths); no premise on any input',
-                 'rejection of a modified signature is proved as a reduction: two accepted signatures with the same digest selectors are equal, or exhibit a same-tweak collision of F/H/T_l on different equal-length inputs, or a WOTS+ message switch (chain walking); '
-                 'modifications that change the digest selectors (R, message, PK.root) rest on target-subset resilience of H_msg / PRF secrecy and are checked by the correspondence and the direct oracle, not proved'],
+                 'rejection of a modified signature is proved as a reduction (premises hashes_ok, params_wf, hashes_wfb, digits_wf): two accepted signatures with the same digest selectors have equal bodies, or the LOCATED WOTS+ switch sig_switch (a boolean of the two signatures) is true, or a same-tweak collision of F/H/T_l on different equal-length inputs exists; the collision disjunct is an existential proved constructively (the proof is the extractor); '
+                 'modifications that change the FORS indices but keep (idx_tree, idx_leaf) are reduced to the explicit target-subset event (per-tree crossing openings); that this event is infeasible rests on target-subset resilience of H_msg and PRF secrecy (not expressible as a hash law here); digests selecting another (idx_tree, idx_leaf), and a modified PK.seed, are checked by the correspondence and the direct oracle only'],
 )
 MANIFEST = dict(
     text='Theorems in coq/props/C16.v about an executable Gallina model of internal/signature/slhdsa that follows the Go code '
@@ -44,10 +44,7 @@ MANIFEST = dict(
          'instantiations equal FIPS 205 section 11; the twelve regenerated parameter sets equal the twelve literal rows of Table 2 (with pk/sig byte counts) and '
          'satisfy fips_wf, so all twelve sets as instantiated by hash.go compute FIPS 205 (C16_twelve_sets_compute_fips_205) and their key pairs are consistent '
          '(C16_twelve_sets_keypair_consistency). A signature of the wrong length is rejected by verifyInternal, verify and tink_verify; tink_verify accepts exactly '
-         'prefix || s with s accepted by verify. Modified signatures: two accepted (message, signature) pairs under one key whose digests select the same FORS '
-         'indices / tree / leaf have equal bodies, or exhibit a same-tweak collision of F, H or T_l (different inputs, equal positive length) or a WOTS+ message '
-         'switch, which is chain walking (C16_two_accepted_signatures_reduction, C16_modified_signature_reduction at the three layers, '
-         'C16_wots_switch_is_chain_walking; the toy example shows a real collision). The model is tied to the code by running the extracted model over a stdlib hash oracle and tink-go on the '
+         'prefix || s with s accepted by verify. Modified signatures (repaired after the second audit: the WOTS+ event is now LOCATED, a boolean sig_switch computed from the two given signatures; the earlier unlocated existential was true for free): under hashes_ok, params_wf, hash outputs being byte strings (hashes_wfb) and digits_wf (len1*lg_w = 8n, 1 <= lg_w <= 25, len2*lg_w <= 32; the twelve sets satisfy it), two accepted (message, signature) pairs under one key whose digests select the same FORS indices / tree / leaf have equal bodies SIG_FORS || SIG_HT, or sig_switch is true of them (at some hypertree layer the WOTS+ parts of their XMSS blocks lead to the same WOTS+ public key although the base-w digit strings, checksum included, of the values signed there differ), or a same-tweak collision of F, H or T_l exists (different inputs, equal positive length) -- C16_two_accepted_signatures_reduction, C16_modified_signature_reduction at the three layers, C16_twelve_sets_modified_signature_reduction from stdlib-primitive laws only. A located switch means chain walking in BOTH directions (C16_located_switch_is_chain_walking_both_ways: some chain value of sig\' is a strict forward F-image of sig\'s and some chain value of sig is a strict forward image of sig\'\'s, with explicit chain indices and step counts, or a collision), because WOTS+ digit strings form an antichain (C16_wots_digit_strings_are_an_antichain). C16_unlocated_switch_would_be_free records why the event must be located. Examples: on the toy family a modified signature is accepted with sig_switch = false and an explicit H collision; another accepted pair (made with the secret seed) has sig_switch = true. Modifications that change the FORS indices but not the hypertree leaf (C16_changed_fors_indices_target_subset_reduction, from C16_two_merkle_openings_cross): two accepted pairs whose digests select the same (idx_tree, idx_leaf) and ARBITRARY FORS indices have equal hypertree parts and, for every FORS tree, either the same index with the same revealed value and path, or crossing openings (the node the second signature computes from its revealed leaf equals an authentication node of the first, and vice versa) -- the explicit target-subset event -- or the located switch, or a collision. The model is tied to the code by running the extracted model over a stdlib hash oracle and tink-go on the '
          'same inputs for all twelve sets: public key from seeds byte-identical, deterministic/randomized/Tink-API signatures byte-identical, '
          'accept/reject of genuine, modified and wrong-length signatures, messages, contexts and keys identical; the model also accepts the '
          'reference implementation\'s known-answer signatures. Keys CREATED by Tink (keyset.Manager.AddNewKeyFromParameters, seeds and id on the tape) are '
@@ -57,7 +54,7 @@ MANIFEST = dict(
          'the reading of the FIPS 205 text behind model/SlhdsaFips.v. '
          'The implementation model is hand-written (tie = correspondence on the explored inputs; the parameter tables are regenerated by the translator and tied to Table 2). '
          'The collision / switch conclusions are existential statements proved constructively (closed under the global context): the proof is the extractor. '
-         'Rejection of modifications that change the digest selectors (R, message, PK.root) is checked, not proved. In the quick tier the s sets are covered by '
+         'Modifications whose digest selects another hypertree leaf are checked, not proved. In the quick tier the s sets are covered by '
          'verification of Tink signatures and one randomly chosen s-set key generation; s-set signing is compared in the thorough tier only '
          '(about 2-4 million oracle calls each). uint32 overflow of node indices (i<<1, (i<<a)+idx) is not modelled: it cannot occur for hp, a < 32.',
     technique='Coq proof (induction over chain length, tree height, climb steps, hypertree layers; arithmetic by lia/nia) about an executable Gallina '
